@@ -133,6 +133,17 @@ def _configs(tier, salts):
                 cfg["tag_mode"] = "default"
                 cfg["tag_place"] = ["broad/" + name]
                 out.append((cfg, {"depth": 0}))
+            # declared linear-algebra faults next to active bounds (points evaluated by the recovering restarts)
+            for cfg, plan in cfgs.linalg_fault_cfgs(salt, tier, probs=("rosen",)):
+                if cfg.get("sets") or cfg.get("reg"):
+                    continue
+                n = len(cfg["x0"])
+                if cfg.get("lo") is None:
+                    cfg["lo"] = [(-1.0 / 3.0 + e) * 4, 0.1 + e, -2.0][:n]
+                    cfg["hi"] = [0.9 + e, 1.7 + e, 0.3 + 0.6][:n]
+                cfg["tag_place"] = [cfg["tag_mode"]]
+                cfg["tag_mode"] = "default"
+                out.append((cfg, plan))
     return out
 
 
